@@ -1,4 +1,5 @@
 """C19 - reading, unsorted writing and overlap iteration are incremental."""
+import os
 import tempfile
 
 import functools
@@ -485,6 +486,42 @@ def overlap_cases(ctx, out, rng):
         out.nontrivial.add(("overlap", repr(info["inputs"])))
 
 
+def eval_sorter_after_failed_spill(cap, sp, keys):
+    """The spill triggered by reaching capacity fails (the temp directory does not exist yet), the caller repairs
+    the cause and keeps adding: adds that return normally minus records on disk must stay below the capacity."""
+    from maflib.sorter import Sorter
+    from .c07 import JsonCodec
+    info = {"adds": 0, "ok_adds": 0, "spilled": [], "raised": []}
+    failures = []
+    with tempfile.TemporaryDirectory() as top:
+        tmp = os.path.join(top, "later")
+        s = Sorter(cap, JsonCodec(), lambda x: x[0], tmp_dir=tmp, always_spill=sp)
+        ok = 0
+        for k, key in enumerate(keys):
+            info["adds"] += 1
+            try:
+                s += (key, k)
+                ok += 1
+            except Exception as e:  # noqa: the failed spill (OSError) and whatever the sorter does afterwards
+                info["raised"].append(type(e).__name__)
+                if not os.path.isdir(tmp):
+                    os.makedirs(tmp)
+                continue
+            spilled = spilled_count(tmp) if os.path.isdir(tmp) else 0
+            info["spilled"].append(spilled)
+            if ok - spilled >= cap:
+                failures.append({"what": "after a failed spill, %d adds returned normally with capacity %d but only %d records are on disk (%d in memory, must be < %d)" % (
+                    ok, cap, spilled, ok - spilled, cap), "kind": "sorter-not-spilling-after-fault", "capacity": cap, "always_spill": sp,
+                    "keys": list(keys[:k + 1])})
+                break
+        info["ok_adds"] = ok
+        try:
+            s.close()
+        except Exception:  # noqa
+            pass
+    return info, failures
+
+
 def spilled_count(tmp):
     import glob
     import gzip
@@ -509,6 +546,12 @@ def sorter_cases(ctx, out, rng):
             out.evaluations += info["adds"]
             out.failures += failures
             out.nontrivial.add(("sorter", cap, sp))
+            keys = [rng.randrange(100) for _ in range(3 * cap + 2)]
+            info, failures = eval_sorter_after_failed_spill(cap, sp, keys)
+            out.evaluations += info["adds"]
+            out.failures += failures
+            out.nontrivial.add(("sorter-failed-spill", cap, sp))
+            out.distribution["sorter adds after a failed spill: " + ",".join(sorted(set(info["raised"])) or ["none raised"])] += 1
 
 
 def run(ctx):
@@ -604,6 +647,14 @@ def replay_case(ctx, failure):
             print("implementation: pulled per input after construction %s" % info.get("pulled_after_init"))
             for step, ids, pulled, allowed in info["steps"][:12]:
                 print("implementation: sub-group %d = record ids %s; pulled per input %s (allowed %s)" % (step, ids, pulled, allowed))
+    elif kind == "sorter-not-spilling-after-fault":
+        keys = f.get("keys")
+        if not (isinstance(keys, list) and isinstance(f.get("capacity"), int) and "always_spill" in f):
+            return None
+        print("executed: Sorter(capacity=%d, always_spill=%s, tmp_dir missing at the first spill, created afterwards) += items with keys %s" % (f["capacity"], f["always_spill"], keys))
+        info, failures = eval_sorter_after_failed_spill(f["capacity"], f["always_spill"], keys)
+        print("implementation: raised %s; records on disk after each successful add: %s" % (info["raised"], info["spilled"]))
+        return failures
     elif kind == "sorter-not-spilling":
         keys = f.get("keys")
         if not (isinstance(keys, list) and isinstance(f.get("capacity"), int) and "always_spill" in f):
